@@ -13,6 +13,7 @@ from .. import gen as G
 from .. import lang as L
 from .. import refdiff as D
 from ..common import h64
+from .. import ref as R
 from ..ref import canon
 from ..shrink import kind_sig
 from ..tsu import StepHeart, gen_parser
@@ -58,7 +59,11 @@ def base_grammar(rng):
             if k < 0.8 and calls:
                 # a rule include is its right hand side in place: a cut in there commits the INCLUDING option
                 return (L.Include if rng.random() < 0.3 else L.Call)(rng.choice(calls))
-            return L.Pat(rng.choice(['a', 'b+', '[ab]']))
+            if k < 0.95:
+                return L.Pat(rng.choice(['a', 'b+', '[ab]']))
+            # a constant that fails to evaluate: a SEMANTIC failure raised inside whatever scopes are open; a cut passed
+            # in this rule must still not commit the caller's options (REF computes both readings of its scope)
+            return L.Const(rng.choice(R.FAILING_CONSTS))
         sub = lambda: body(depth - 1, calls)  # noqa: E731
         if r < 0.40:
             return L.Seq(tuple(sub() for _ in range(rng.choice([2, 2, 3]))))
